@@ -845,6 +845,8 @@ def evaluate(case, native):
             exp_results = [target in avail and target in keep]; exp_copy = sorted((avail & keep) - {target})
             if native['slice_all'] != sorted(keep):
                 return True, f'the slice keeping {sorted(keep)} knows the actors {native["slice_all"]}'
+            if native.get('foreign_accepted'):
+                return True, f'the slice keeping {sorted(keep)} accepts the release of {native["foreign_accepted"]}, vehicles it does not own (they become available in the slice while the original has them)'
         for got, rid in zip(native['results'], native.get('routes') or []):
             if got and rid != target:
                 return True, f'{op}({target}) handed out a route of actor {rid}'
